@@ -346,7 +346,7 @@ impl BDF {
             }
 
             // Step size guard against stagnation
-            if (x + 0.1 * h_signed.abs()) == x {
+            if (x + 0.1 * h_signed) == x {
                 status = Status::StepSizeTooSmall;
                 break;
             }
